@@ -184,6 +184,28 @@ P["C09"] = {
     "obligations": op_obl(["poll.done.restart", "poll.done.ok", "poll.done.err", "poll_next.done", "poll.not_started"]),
 }
 
+L = "verif_lib::"
+P["C11"] = {
+    "level_text": "Proof of every step of the two-flag wake handshake on the real code: PollingState::set_polling / wake are exactly swap / fetch_or with the stated return predicates from every state; Completions::poll announces polling before entering the kernel, turns the wait into a zero-timeout poll iff a wake-up was pending, and clears both flags after the entry on every path; Submissions::wake sends exactly one MSG_RING{WAKE_USER_DATA} (queued before the enter that submits it, retried while the queue is full; synchronously via io_uring_register on single-issuer rings) iff it observed polling-and-not-awoken, and otherwise only sets the flag. Each step is one RMW on one atomic word, so interleavings are sequences of these proved steps.",
+    "level_note": "The composition over all interleavings of {P1 set_polling(true), P2 enter, P3 set_polling(false)} with {W1 fetch_or, W2 message} is argued in DESIGN.md section 5/C11 from the per-step contracts (a Verus lemma over the abstract handshake is listed there); per-location coherence of the atomic and kernel delivery of MSG_RING are assumed. 'wake after the Ring is dropped is harmless' is the Arc<Shared> ownership argument (C12).",
+    "functions": [
+        {"file": "src/lib.rs", "fn": r"pub\(crate\) fn set_polling\(&self, is_polling: bool\)"},
+        {"file": "src/lib.rs", "fn": r"pub\(crate\) fn wake\(&self\) -> bool"},
+        {"file": "src/io_uring/sq.rs", "fn": r"pub\(crate\) fn wake\(&self\) -> io::Result<\(\)>"},
+        {"file": "src/io_uring/cq.rs", "fn": r"pub\(crate\) fn poll\(&mut self, shared: &Shared"},
+    ],
+    "trusted_base": [KERNEL, SC, KANIBUG, "Shared::wake_blocked_futures replaced by its frame contract inside Shared::enter (proved separately, c03.blocked.*)"],
+    "assumptions": ["kernel delivers a MSG_RING completion to a ring blocked in io_uring_enter (io_uring ABI)"],
+    "obligations": [
+        K("c11.polling_state", "lib_mod.rs", L + "c11_polling_state", "PollingState::set_polling(b) == swap(b): returns old AWOKEN, leaves {polling=b, awoken=false}; wake() == fetch_or(AWOKEN): returns old == POLLING; all 4 states", ["PollingState::set_polling", "PollingState::wake"]),
+        K("c11.poll.handshake.1", "cq.rs", C + "c05_poll_empty_1", "Completions::poll on an empty queue: events are exactly [set_polling(true), io_uring_enter, set_polling(false)] on every path (ok/ETIME/EINTR/hard error); timeout forced to zero iff a wake() preceded; flags idle afterwards", ["io_uring::cq::Completions::poll"]),
+        K("c11.poll.handshake.2", "cq.rs", C + "c05_poll_empty_2", "same, ring size 2", ["io_uring::cq::Completions::poll"]),
+        K("c11.wake.not_polling", "sq.rs", S + "c11_wake_not_polling", "Submissions::wake when no poll is in progress or a wake-up is already pending (states 0,2,3; any ring; single-issuer or not): only AWOKEN is set, no ring entry, no system call", ["io_uring::sq::Submissions::wake"]),
+        K("c11.wake.polling", "sq.rs", S + "c11_wake_polling", "Submissions::wake while a poll is in progress, all ring counters: exactly one MSG_RING{fd=ring, addr=IORING_MSG_DATA, off=WAKE_USER_DATA, user_data=WAKE_USER_DATA} is queued before the zero-timeout enter that submits it; with a full queue it first enters to make room and retries", ["io_uring::sq::Submissions::wake", "io_uring::sq::Submissions::add", "io_uring::Shared::enter"]),
+        K("c11.wake.single_issuer", "sq.rs", S + "c11_wake_single_issuer", "single-issuer ring: the same message is sent with io_uring_register(-1, SEND_MSG_RING, &sqe, 1); nothing queued on the ring; the error is returned", ["io_uring::sq::Submissions::wake"]),
+    ],
+}
+
 def main():
     os.makedirs(os.path.join(V, "obligations"), exist_ok=True)
     for pid, p in P.items():
